@@ -302,7 +302,21 @@ func PutVmsa(v *spb.VmcbSaveArea, data []byte) error {
 	}
 	binary.LittleEndian.PutUint64(data[0x3E8:0x3F0], v.Xcr0)
 
-	// SEV-ES fields that follow are all zero at launch.
+	// SEV-ES fields that follow are all zero at launch: a value that says otherwise is refused rather
+	// than dropped.
+	if len(v.ValidBitmap) != 0 {
+		if err := checkMbz("valid_bitmap", v.ValidBitmap, 0x3F0, 0x400); err != nil {
+			return err
+		}
+	}
+	if v.X87StateGpa != 0 {
+		return fmt.Errorf("uint64 field x87_state_gpa for byte range 0x:%x:0x%x is not zero", 0x400, 0x408)
+	}
+	for i, b := range v.Reserved_12 {
+		if b != 0 {
+			return fmt.Errorf("reserved field 'reserved_12' has non-zero byte at index 0x%x (VMSA index 0x%x)", i, 0x408+i)
+		}
+	}
 	for i := 0x3F0; i < SizeofVmsa; i++ {
 		data[i] = 0
 	}
